@@ -338,8 +338,18 @@ func docxTable(t *ltable, need map[string]bool) *Node {
 					tcPr.Add(wval("w:vMerge", "restart"))
 				}
 				tc := E("w:tc", tcPr)
+				var boxed []*Node
 				for i := range cell.Paras {
-					tc.Add(docxPara(&cell.Paras[i], need))
+					pn := docxPara(&cell.Paras[i], need)
+					if cell.Box == "" || i < cell.BoxAt || i >= cell.BoxAt+cell.BoxN {
+						tc.Add(pn)
+						continue
+					}
+					// a block-level container that is a child of the cell (structure.go)
+					boxed = append(boxed, pn)
+					if i == cell.BoxAt+cell.BoxN-1 {
+						tc.Add(docxBox(cell.Box, 500+i, boxed))
+					}
 				}
 				if cell.Nested != nil {
 					tc.Add(docxTable(cell.Nested, need), E("w:p")) // a cell must end with a paragraph
@@ -429,9 +439,7 @@ func writeDocx(r *hx.Rng, d *ldoc) docxPkg {
 			return append(ns, docxPara(bl.P, need))
 		}
 		tn := docxTable(bl.T, need)
-		if bl.Box == 0 {
-			bodyTables = append(bodyTables, tn) // the w:tbl children of the body itself
-		}
+		bodyTables = append(bodyTables, tn) // the tables of the body: w:tbl children of the body itself or of a block-level container
 		return append(ns, tn)
 	}
 	for i := 0; i < len(d.Blocks); {
